@@ -461,7 +461,13 @@ struct StrTarget
             int const which = (int)(((o.a[0] % 3) + 3) % 3);
             bool const under = (o.a[2] & 1) != 0;
             static const struct { char const *s; size_t n; } SETS[] = {{" ", 1}, {" \t\n", 3}, {"abc", 3}, {"\0x", 2}, {" \t\n\rabcxz%\0\x80\xff\xc3", 14}, {"q", 0}, {"\xff\x80", 2}, {"z", 1}};
-            auto const &set = SETS[(uint64_t)(o.a[1] < 0 ? -o.a[1] : o.a[1]) % 8];
+            auto const &set0 = SETS[(uint64_t)(o.a[1] < 0 ? -o.a[1] : o.a[1]) % 8];
+            // one call in seven names the set by a view into the string's own buffer (its first byte): "strip whatever the
+            // string starts with from both ends" - the set must be read before the content moves
+            bool const own_set = len >= 1 && ((uint64_t)(o.a[3] < 0 ? -o.a[3] : o.a[3]) % 7) == 6;
+            char const first = own_set ? x.M[0] : 0;
+            struct { char const *s; size_t n; } const set = {own_set ? &first : set0.s, own_set ? (size_t)1 : set0.n};
+            if (own_set) c.st.add("probe.trim_set_inside_own_buffer");
             auto in_set = [&](unsigned char ch) { if (set.n) return memchr(set.s, ch, set.n) != nullptr; return isspace(ch) != 0; };
             std::string M = x.M;
             size_t b = 0, e = M.size();
@@ -472,9 +478,10 @@ struct StrTarget
             char const *name = NAMES[under][which];
             // the set lives in an exact-size block so that reading past it is caught
             char *setmem = (char *)SA.halloc(set.n ? set.n : 1); memcpy(setmem, set.s, set.n ? set.n : 1);
+            char const *const setarg = own_set ? a_str_ptr(s) : setmem;
             c.site(name);
-            if (!under) { if (which == 0) a_str_rtrim(s, setmem, set.n); else if (which == 1) a_str_ltrim(s, setmem, set.n); else a_str_trim(s, setmem, set.n); }
-            else { if (which == 0) a_str_rtrim_(s, setmem, set.n); else if (which == 1) a_str_ltrim_(s, setmem, set.n); else a_str_trim_(s, setmem, set.n); }
+            if (!under) { if (which == 0) a_str_rtrim(s, setarg, set.n); else if (which == 1) a_str_ltrim(s, setarg, set.n); else a_str_trim(s, setarg, set.n); }
+            else { if (which == 0) a_str_rtrim_(s, setarg, set.n); else if (which == 1) a_str_ltrim_(s, setarg, set.n); else a_str_trim_(s, setarg, set.n); }
             SA.hfree(setmem);
             bool const stripped = want.size() < x.M.size();
             if (stripped) c.st.add(want.empty() ? "probe.trim_emptied_string" : "probe.trim_stripped");
